@@ -267,7 +267,7 @@ Definition c_cli_verify (st : server) (now : Z) (t : token) : bool :=
   | None => false
   end.
 
-(* authToken.go SendAuthDocumentHandler after checkAuth admitted [session_user]: the cookie put
+(* authToken.go SendAuthDocumentHandler after checkAuth let [session_user] in: the cookie put
    into the redirect to the CLI's local port (level = AuthTypeWebauthForCLI = cli_level) *)
 Definition c_cli_send (st : server) (now : Z) (cli_level : Z) (session_user : bs) (t : token) : option token :=
   do i <- auth_info st now k_cli t;
